@@ -123,6 +123,16 @@ def validate_snapshots(progs, clean, per, verd, stats):
     return len(recs), bad
 
 
+def classify(p, v, out):
+    """the one divergence with a name of its own; everything else gets the default family/kind/source key"""
+    exp, got = v.get("exp"), v.get("got")
+    txt = lambda t: bytes(t[1]).decode("latin-1") if isinstance(t, list) and len(t) == 2 and t[0] == "s" else ""
+    if p["fam"].startswith("overflow") and isinstance(exp, list) and isinstance(got, list) and exp and len(got) == 3 \
+            and txt(exp[0]) == "handler" and txt(got[0]) == "r" and got[1] == ["b", False] and txt(got[2]).endswith("stack overflow"):
+        return "C05:xpcall:handler-not-run-on-stack-overflow"
+    return lsem.default_classify(PROP)(p, v, out)
+
+
 def run(tier):
     t0 = time.time()
     thorough = tier == "thorough"
@@ -158,6 +168,10 @@ def run(tier):
         for _ in range(2):
             fams.append(("depth",) + gen_prot.depth_program(target, catcher) + (None,))
             ndepth += 1
+    # recursion without bound under a protected call: "stack overflow" is an ordinary error (LuaSem's glimit)
+    for c, sh in itertools.product(["pcall", "xpcall", "co"], ["plain", "capture", "method", "pcall-inside"]):
+        for hd in (("plain", "calls") if c == "xpcall" else ("plain",)):
+            fams.append(("overflow",) + gen_prot.overflow_program(c, sh, hd) + (None,))
     progsA = lsem.number(fams)
     flip = False
     for pr in progsA:
@@ -167,8 +181,8 @@ def run(tier):
             flip = not flip
     verd, cov, allv, allo, stats = lsem.run_families(
         PROP, tier, progsA,
-        "(A) error(v[,level]) for v of 13 kinds (strings containing '%' among them) x level {default,1,2,0} x raised via error/host RaiseError/Go panic in a host function/assert x caught by pcall/xpcall/nested pcall/nothing; capturing functions retried after failed protected calls; errors escaping coroutine.wrap functions caught in a main-thread / coroutine resumer, thread identity and other coroutines afterwards; protected calls at call depth 1..20 with the fixed and the auto-growing (MinimizeStackMemory) frame stack; (B) corpus of protected bodies (pcall, xpcall, nested, inside a metamethod, inside a for-in iterator, unprotected up to the Go-side PCall) with a one-shot fault at every dispatch poll",
-        [], t0, max_steps=20000, nontrivial_min_emits=2)
+        "(A) error(v[,level]) for v of 13 kinds (strings containing '%' among them) x level {default,1,2,0} x raised via error/host RaiseError/Go panic in a host function/assert x caught by pcall/xpcall/nested pcall/nothing; capturing functions retried after failed protected calls; errors escaping coroutine.wrap functions caught in a main-thread / coroutine resumer, thread identity and other coroutines afterwards; protected calls at call depth 1..20 with the fixed and the auto-growing (MinimizeStackMemory) frame stack; recursion without bound (plain, capturing, through methods, re-raised through inner pcalls) caught by pcall / xpcall with a plain or calling handler / a coroutine's resumer, and the state's behaviour afterwards; (B) corpus of protected bodies (pcall, xpcall, nested, inside a metamethod, inside a for-in iterator, unprotected up to the Go-side PCall) with a one-shot fault at every dispatch poll",
+        [], t0, max_steps=20000, nontrivial_min_emits=2, classify=classify)
     # ---- (B) fault sweep
     nprog = 260 if thorough else 36
     progsB = []
